@@ -335,7 +335,13 @@ func genC08Input(t *rapid.T) (src string, origin string) {
 		if cut == 0 {
 			closers = d
 		}
-		switch rapid.IntRange(0, 11).Draw(t, "nestkind") {
+		switch rapid.IntRange(0, 13).Draw(t, "nestkind") {
+		case 12:
+			// every group is the LEFT operand of an `or` (case 2 nests on the right)
+			return "find all " + strings.Repeat("( ", d) + "'a'" + strings.Repeat(" ) or 'b'", closers), "deepnest"
+		case 13:
+			// the same inside a capture, a loop and a `not in`-free alternation of groups
+			return "find all " + strings.Repeat("( ", d) + "'a' = v" + strings.Repeat(" ) or ( maybe 'b' )", closers), "deepnest"
 		case 10, 11:
 			// a chain of definitions, each using the previous one twice (with or without
 			// a predicate): the program must stay linear in the length of the chain
